@@ -37,6 +37,9 @@ def check(chk):
     chk.rule('C13.replace', '_is_replacing: test-and-set under the pool lock before submitting _replace; reset on completion; over-threshold connection with live requests is kept in _trash')
     chk.rule('C13.borrow', 'borrow refuses a connection that is past the threshold and closed, and re-fetches the current one')
     chk.rule('C13.sites', 'every connection close() in pool.py is one of the classified sites')
+    # the drained predicate compares in_flight with the number of orphaned streams: it is only as good as the count
+    chk.rule('C13.inflight', 'in_flight is lowered by a return only on a path that raised it (shared with C12.paired): otherwise the drained predicate holds while a request is still awaiting its response')
+    chk.borrow('C12', {'C12.paired': 'C13.inflight'}, 'with in_flight one too low the replaced connection is closed under a live request')
     pool = chk.repo.mod(POOL)
 
     # ---- classify close sites
